@@ -588,12 +588,23 @@ Proof.
   destruct y as [[[ty at_] st] X]. cbn [fst]. destruct ty as [[]|]; try reflexivity. discriminate.
 Qed.
 
-(* segments that carry their own demarcation, from any state between segments *)
-Lemma seg_self y prev_coll done st rest :
-  Inv prev_coll done st -> wf_seg prev_coll (fst y) = true -> needs_sep (fst y) = false ->
-  exists st', R st (body_x sepc y ++ rest) = R st' rest /\ Inv (is_collector (fst y)) (done ++ [kseg strip sepc y])%list st'.
+(* a collector that carries an operator *)
+Definition op_collector (x : sseg) : bool :=
+  match x with
+  | ((Some TCollector, ACollector op _), _) => match op with CNone => false | _ => true end
+  | _ => false
+  end.
+
+(* segments that carry their own demarcation, from any top-level state: only a
+   collector with an operator looks at the flags the previous token left *)
+Lemma seg_self_gen y prev_coll S ty0 A acc sa sc p rest :
+  pend acc ty0 = Ok p ->
+  (op_collector (fst y) = true -> acc = "" /\ sa = false /\ sc = true) ->
+  wf_seg prev_coll (fst y) = true -> needs_sep (fst y) = false ->
+  exists st', R (Top S ty0 A acc sa sc) (body_x sepc y ++ rest) = R st' rest
+              /\ Inv (is_collector (fst y)) ((S ++ p) ++ [kseg strip sepc y])%list st'.
 Proof.
-  intros (S & ty0 & A & acc & sa & sc & p & -> & Hp & <- & Hc1 & Hc2) Hwf Hns.
+  intros Hp Hc1 Hwf Hns.
   rewrite (body_x_self y Hns).
   destruct y as [[[ty at_] st] X]. cbn [fst] in *.
   destruct ty as [[]|]; try discriminate Hns; destruct at_; try discriminate Hwf; cbn [is_collector].
@@ -629,17 +640,17 @@ Proof.
         apply Hrun. intros _. exact H4.
       * exists ((S ++ p) ++ [(Some TCollector, ACollector CNone (String e0 er))])%list, None, A, "", false, true, [].
         repeat split; try discriminate. apply app_nil_r.
-    + destruct (Hc1 Hop) as (-> & -> & ->). cbn in Hp. inversion Hp; subst p. rewrite app_nil_r.
+    + destruct (Hc1 eq_refl) as (-> & -> & ->). cbn in Hp. inversion Hp; subst p. rewrite app_nil_r.
       eexists. split.
       * rewrite coll_op_open. apply Hrun. discriminate.
       * exists (S ++ [(Some TCollector, ACollector CAdd (String e0 er))])%list, None, A, "", false, true, [].
         repeat split; try discriminate. apply app_nil_r.
-    + destruct (Hc1 Hop) as (-> & -> & ->). cbn in Hp. inversion Hp; subst p. rewrite app_nil_r.
+    + destruct (Hc1 eq_refl) as (-> & -> & ->). cbn in Hp. inversion Hp; subst p. rewrite app_nil_r.
       eexists. split.
       * rewrite coll_op_open. apply Hrun. discriminate.
       * exists (S ++ [(Some TCollector, ACollector CSub (String e0 er))])%list, None, A, "", false, true, [].
         repeat split; try discriminate. apply app_nil_r.
-    + destruct (Hc1 Hop) as (-> & -> & ->). cbn in Hp. inversion Hp; subst p. rewrite app_nil_r.
+    + destruct (Hc1 eq_refl) as (-> & -> & ->). cbn in Hp. inversion Hp; subst p. rewrite app_nil_r.
       eexists. split.
       * rewrite coll_op_open. apply Hrun. discriminate.
       * exists (S ++ [(Some TCollector, ACollector CAnd (String e0 er))])%list, None, A, "", false, true, [].
@@ -693,6 +704,20 @@ Proof.
       * change ("" ++ ?x) with x. apply Hk.
     + exists ((S ++ p) ++ [(Some TKeywordSearch, AKeyword inv k (kept strip param_specials params))])%list, None, "", "", false, false, [].
       repeat split; try discriminate. apply app_nil_r.
+Qed.
+
+(* the same from the state the writer leaves between two segments *)
+Lemma seg_self y prev_coll done st rest :
+  Inv prev_coll done st -> wf_seg prev_coll (fst y) = true -> needs_sep (fst y) = false ->
+  exists st', R st (body_x sepc y ++ rest) = R st' rest /\ Inv (is_collector (fst y)) (done ++ [kseg strip sepc y])%list st'.
+Proof.
+  intros (S & ty0 & A & acc & sa & sc & p & -> & Hp & <- & Hc1 & Hc2) Hwf Hns.
+  apply (seg_self_gen y prev_coll S ty0 A acc sa sc p rest Hp); try assumption.
+  intros Hop. apply Hc1.
+  destruct y as [[[ty at_] st] X]. cbn [fst] in *.
+  destruct ty as [[]|]; try discriminate Hop; destruct at_; try discriminate Hop.
+  cbn [wf_seg] in Hwf. apply andb_true_iff in Hwf. destruct Hwf as [_ Hw].
+  destruct op; [discriminate Hop | exact Hw | exact Hw | exact Hw].
 Qed.
 
 Lemma inv_sc prev_coll done S ty A acc sa sc :
